@@ -259,13 +259,18 @@ def written_value(step):
     return list(step["emit"])
 
 
-def replay_writer(hist, fin):
-    """Execute a writer history on the real writer, read it back with both readers.
+PREFIX_BYTE = b"\xa5"  # BitIO.tla PrefixBits: 1,0,1,0,0,1,0,1
+
+
+def replay_writer(hist, fin, base=0):
+    """Execute a writer history on the real writer, read it back with both readers.  base = number of bytes
+    already in the file object (and its position) when the writer is created (BitIO.tla `base`).
 
     returns dict(violations=[(sig, what)], dis=int, evals=int)"""
     m = M()
     bio = m["bio"]
     f = io.BytesIO()
+    f.write(PREFIX_BYTE * base)
     w = bio.BitstreamWriter(f)
     viol = []
     dis = 0
@@ -355,7 +360,8 @@ def replay_writer(hist, fin):
     all_intact = all(fin["intact"][i] for i, s in enumerate(hist) if s["o"]["op"] in VALUE_OPS and s["err"] == "none")
     if all_intact and all(x["err"] != "ValueError" for x in real):
         r = bio.BitstreamReader(io.BytesIO(data))
-        d = DecReader(data)
+        r.seek(base, 7)
+        d = DecReader(data, base, 7)
         for s, rw in zip(hist, real):
             o = s["o"]
             if o["op"] == "flush" or rw["err"] != "none":
@@ -446,12 +452,12 @@ def chunk_offsets(path, nchunks):
 
 def replay_state(st):
     if st["mode"] == "w":
-        return replay_writer(st["hist"], st["fin"])
+        return replay_writer(st["hist"], st["fin"], st.get("base", 0))
     return replay_reader(st["f"], st["hist"])
 
 
 def case_of(st):
-    return {"mode": st["mode"], "f": list(st["f"]), "hist": tlaval.to_jsonable(st["hist"]), "fin": tlaval.to_jsonable(st["fin"])}
+    return {"mode": st["mode"], "f": list(st["f"]), "base": st.get("base", 0), "hist": tlaval.to_jsonable(st["hist"]), "fin": tlaval.to_jsonable(st["fin"])}
 
 
 def work_chunk(arg):
@@ -474,6 +480,8 @@ def work_chunk(arg):
         out["dis"] += res["dis"]
         key = "%s:%s" % (st["mode"], st["inp"]["op"])
         out["ops"][key] = out["ops"].get(key, 0) + 1
+        if st.get("base", 0) > 0:
+            out["ops"]["w:created-at-nonzero-file-position"] = out["ops"].get("w:created-at-nonzero-file-position", 0) + 1
         if res["violations"] and len(out["viol"]) < 40:
             c = case_of(st)
             for sig, what in res["violations"]:
@@ -638,6 +646,18 @@ def selftest_G():
     hist2 = [wstep(O("nbits", n=3, v=8), 0, 0, err="OutOfRangeError")]
     fin2 = {"file": (), "intact": (False,)}
     probe("BitstreamWriter.write_nbits truncates instead of refusing", lambda: replay_writer(hist2, fin2), bio.BitstreamWriter, "write_nbits", lambda orig: (lambda self, bits, value: orig(self, bits, value & ((1 << bits) - 1))))
+    # 2b. writer that takes its starting position to be 0 although the file object is positioned after 2 bytes
+    hist2b = [wstep(O("uintlit", n=1, v=165), 16, 24, emit=(1, 0, 1, 0, 0, 1, 0, 1))]
+    fin2b = {"file": (1, 0, 1, 0, 0, 1, 0, 1) * 3, "intact": (True,)}
+
+    def init_at_zero(orig):
+        def __init__(self, file):
+            orig(self, file)
+            self._byte_offset = 0
+
+        return __init__
+
+    probe("BitstreamWriter ignores the position of the file it is given", lambda: replay_writer(hist2b, fin2b, 2), bio.BitstreamWriter, "__init__", init_at_zero)
     # 3. decoder.io read_bitb ignores the block end -> block / readers disagree
     rh = [
         dict(o=O("bbegin", n=0), v=0, err="none", pos=0, on=True, rem=0, pastend=False),
@@ -651,7 +671,7 @@ def selftest_G():
 def run(ctx):
     M()
     quick = ctx.quick
-    wconst = {"Modes": ["w"], "MaxLen": ctx.pick(3, 4)}
+    wconst = {"Modes": ["w"], "MaxLen": ctx.pick(3, 4), "Bases": [0, 2]}
     rconst = {"Modes": ["r"], "MaxLen": ctx.pick(2, 2), "MaxBits": ctx.pick(8, 10), "Pads": [0, 1]}
     jobs = [
         ("BitIO", cfg_text(CFG_W, MaxLen=wconst["MaxLen"]), {"dump": True}),
@@ -683,6 +703,8 @@ def run(ctx):
     tinfo = trace_direction(ctx)
     if wtot["n"] == 0 or rtot["n"] == 0:
         raise RuntimeError("vacuous: no histories replayed")
+    if wtot["ops"].get("w:created-at-nonzero-file-position", 0) == 0:
+        raise RuntimeError("vacuous: no writer history replayed on a file object positioned after existing bytes")
     ctx.coverage.update(
         {
             "traces_validated_against_impl": tot["n"] + tinfo["traces"],
@@ -715,7 +737,7 @@ def replay(case):
     M()
     if case.get("trace"):
         return replay_trace(case)
-    st = {"mode": case["mode"], "f": tuple(case["f"]), "hist": _tup(case["hist"]), "fin": _tup(case["fin"])}
+    st = {"mode": case["mode"], "f": tuple(case["f"]), "base": case.get("base", 0), "hist": _tup(case["hist"]), "fin": _tup(case["fin"])}
     res = replay_state(st)
     return {"violations": res["violations"], "spec_disagreements": res["dis"]}
 
@@ -817,6 +839,8 @@ def record_writer_trace(arg):
     bio = m["bio"]
     rnd = random.Random(seed)
     f = io.BytesIO()
+    base = rnd.choice([0, 0, 0, 1, 3])  # bytes already in the file (and its position) when the writer is created
+    f.write(PREFIX_BYTE * base)
     w = bio.BitstreamWriter(f)
     steps = []
     for _ in range(nops):
@@ -836,8 +860,9 @@ def record_writer_trace(arg):
     data = f.getvalue()
     bits = bits_of_bytes(data)
     r = bio.BitstreamReader(io.BytesIO(data))
-    d = DecReader(data)
-    ev = [{"tid": tid, "ev": "wbegin"}]
+    r.seek(base, 7)
+    d = DecReader(data, base, 7)
+    ev = [{"tid": tid, "ev": "wbegin", "base": base}]
     rsync = True
     for st in steps:
         o = st["o"]
@@ -995,8 +1020,9 @@ def trace_direction(ctx):
     npast = sum(1 for r in records if r["ev"] == "r" and r["o"]["op"] == "bit" and r["on0"] and r["rem0"] <= 0)
     ndec = sum(1 for r in records if r["ev"] == "r" and not r["dec"]["na"])
     nverr = sum(1 for r in records if r["ev"] == "w" and r["exc"] == "ValueError")
-    if min(nbig, noor, npast, ndec, nverr) == 0:
-        raise RuntimeError("vacuous trace set: big=%d oor=%d pastend=%d dec=%d valueerror=%d" % (nbig, noor, npast, ndec, nverr))
+    nbased = sum(1 for r in records if r["ev"] == "wbegin" and r.get("base", 0) > 0)
+    if min(nbig, noor, npast, ndec, nverr, nbased) == 0:
+        raise RuntimeError("vacuous trace set: big=%d oor=%d pastend=%d dec=%d valueerror=%d writers-at-nonzero-position=%d" % (nbig, noor, npast, ndec, nverr, nbased))
     # binding self-test: corrupt recorded fields -> the trace spec must flag exactly those lines
     def pick_w(ev):
         a = [i for i, r in enumerate(ev) if r["ev"] == "w" and r["o"]["op"] in ("uint", "sint") and r["exc"] == "none" and not r["on0"]]
